@@ -891,9 +891,15 @@ def tla_conformance(ctx):
             os.makedirs(dd, exist_ok=True)
             impl = _LockImpl(dd, 2)
             try:
-                for pa, paa in path[s]:
-                    impl.step(pa, paa)
-                got_s = impl.abstract(actors)
+                try:
+                    for pa, paa in path[s]:
+                        impl.step(pa, paa)
+                    got_s = impl.abstract(actors)
+                except Exception as e:
+                    acc.violation("tla:conformance:implementation-raises-on-model-path",
+                                  "model path %r: %s: %s" % (path[s], type(e).__name__, str(e).replace(dd, "<d>")),
+                                  rp("case_tla_path", [list(x) for x in path[s][:-1]], list(path[s][-1]) if path[s] else [act, a]))
+                    continue
                 # `last` of the source state depends on which path reached it; compare the path-independent part
                 cmp_s = {k: v for k, v in got_s.items() if k != "last"}
                 if cmp_s != {k: v for k, v in states[s].items() if k != "last"}:
